@@ -319,7 +319,7 @@ class Verifier:
         if fnode.args.vararg is not None:
             frame_locals[fnode.args.vararg.arg] = VTuple([])
         if fnode.args.kwarg is not None:
-            frame_locals[fnode.args.kwarg.arg] = I.new_dict([])
+            frame_locals[fnode.args.kwarg.arg] = I.fresh(("dict", ("str",), ("any",)), fnode.args.kwarg.arg)
         frame = E.Frame(relpath, ci, frame_locals, None, qual)
         sframe = E.Frame("<spec>", ci, dict(frame_locals), None, "spec")
         sframe.locals.update(ghost_vals)
